@@ -67,8 +67,72 @@ TS = [0, 1, 7, 40]
 PADS = [(0, 0, 0), (1, 1, 2), (2, 0, 1), (0, 2, 0), (0, 0, 3)]
 
 
-def run_line(model, N, nSets, nIn, T, pad, padS, seed, backend='go', warm=1, record=1):
-    return 'RUN %s %d %d %d %d %d %d %d %d %d %s %d %d' % (model, N, nSets, nIn, T, pad[0], pad[1], pad[2], padS, seed, backend, warm, record)
+def run_line(model, N, nSets, nIn, T, pad, padS, seed, backend='go', warm=1, record=1, pmode='std', probe=0):
+    return 'RUN %s %d %d %d %d %d %d %d %d %d %s %d %d %s %d' % (model, N, nSets, nIn, T, pad[0], pad[1], pad[2], padS, seed, backend,
+                                                           warm, record, pmode, probe)
+
+
+# shapes for the parameter-position streams: mostly SHARED blocks (one parameter set and / or one
+# input block for several cells), where a kernel writing into what it was handed hits its neighbours
+EDGE_SHAPES = [(3, 1, 1), (5, 2, 1), (2, 1, 2), (8, 8, 1), (3, 3, 3)]
+
+
+def gen_edge_cases(rng, models, rots=(0, 1, 2, 3, 4), backend='go', record=1):
+    """Every scalar parameter at exactly its range ends / exactly 0 / its default / inside its range:
+    the position of parameter j in set c is POSITIONS[(rot + 2j + c) % 5], so the five rotations
+    put every parameter of every model at every position (threshold branches are taken on both
+    sides).  States straight from InitialiseStates (no warm-up) so that a PROBE sees the same data."""
+    lines = []
+    for m in models:
+        for k, rot in enumerate(rots):
+            N, nSets, nIn = EDGE_SHAPES[(k + rot) % len(EDGE_SHAPES)]
+            lines.append(run_line(m, N, nSets, nIn, [7, 3, 5][k % 3], PADS[k % len(PADS)], 0, rng.randrange(1 << 30), backend, 0, record,
+                                  'edge%d' % rot))
+    return lines
+
+
+def gen_out_of_range(rng, models, per_model=1, backend='go', record=1):
+    """Low-frequency stream outside the documented ranges (x100 / negated scalars, tables x100) with
+    nSets, nIn in {1, N}: shared parameter tables and shared input blocks."""
+    lines = []
+    k = 0
+    for m in models:
+        for _ in range(per_model):
+            N = [2, 3, 5][k % 3]
+            nSets, nIn = [(1, 1), (N, N), (1, N), (N, 1)][k % 4]
+            lines.append(run_line(m, N, nSets, nIn, [5, 7][k % 2], PADS[k % len(PADS)], 0, rng.randrange(1 << 30), backend, 0, record, 'out'))
+            k += 1
+    return lines
+
+
+def is_special(line):
+    """edge / out-of-range case (a crash may be the kernel rejecting the parameter draw)"""
+    f = line.split()
+    return len(f) > 14 and f[14] != 'std'
+
+
+def probe_of(line):
+    f = line.split()
+    f[15] = '1'
+    f[13] = '0'      # no recorder
+    return ' '.join(f)
+
+
+def kernel_rejects(line, binary=None, env=None):
+    """The single-cell runs alone crash too: the kernel panics on this parameter draw (skip the case)."""
+    r = run_lines(binary or CELLRUN, [probe_of(line)], env=env or GOENV)[0]
+    return not r.startswith('{')
+
+
+def add_positions(table, r):
+    L = r['layout']
+    t = table.setdefault(L['Model'], {})
+    for pname, poss in (r.get('positions') or {}).items():
+        t.setdefault(pname, set()).update(poss)
+
+
+def positions_summary(table):
+    return {m: {p: sorted(v) for p, v in sorted(ps.items())} for m, ps in sorted(table.items())}
 
 
 def gen_run_cases(rng, models, per_model, backends=('go',), record=1):
